@@ -51,7 +51,12 @@ func (f *c05MemFile) WriteAt(p []byte, off int64) (int, error) {
 	copy(f.b[off:], p)
 	return len(p), nil
 }
-func (f *c05MemFile) Truncate(n int64) error { f.mu.Lock(); defer f.mu.Unlock(); f.b = f.b[:n]; return nil }
+func (f *c05MemFile) Truncate(n int64) error {
+	f.mu.Lock()
+	defer f.mu.Unlock()
+	f.b = f.b[:n]
+	return nil
+}
 func (f *c05MemFile) Stat() (os.FileInfo, error) {
 	f.mu.Lock()
 	defer f.mu.Unlock()
@@ -270,4 +275,130 @@ func TestBounded_C05_Readers(t *testing.T) {
 		}
 	}
 	fmt.Printf("BOUNDED-CASES test=%s cases=%d space=%d pseudo-random single-mutator histories of %d Set/Delete steps over 12 keys (memory-only, and file-backed with a Flush + EvictSomeItems every 7 steps) x 3 concurrent readers doing whole ascending visits and point lookups; scheduler interleavings are not enumerated\n", test, len(space), seeds, steps)
+}
+
+// Forced schedules (no reliance on the scheduler): a reader's whole-collection enumeration is parked, through the
+// ItemDecRef callback, at the point where it has finished counting the items and has not yet looked up the first
+// one; the single mutating goroutine then empties (or changes) the collection; the reader is resumed. C05: no
+// schedule produces a panic, and what the reader is presented are items of versions that were current during the call.
+type c05HandOver struct {
+	Op    string `json:"op"`    // BlockEx | Random
+	N     int    `json:"n"`     // items before the hand-over
+	After string `json:"after"` // what the mutator does while the reader is parked: empty | shrink | grow
+}
+
+func c05HandOverRun(in c05HandOver) (what string) {
+	var armed int32 = 0
+	parked, resume := make(chan bool), make(chan bool)
+	cb := StoreCallbacks{
+		ItemDecRef: func(c *Collection, i *Item) {
+			if atomic.CompareAndSwapInt32(&armed, 1, 2) {
+				close(parked)
+				<-resume
+			}
+		},
+		ItemAddRef: func(c *Collection, i *Item) {},
+	}
+	s, err := NewStoreEx(nil, cb)
+	if err != nil {
+		return err.Error()
+	}
+	c := s.SetCollection("x", nil)
+	valid := map[string]bool{}
+	for k := 0; k < in.N; k++ {
+		key := fmt.Sprintf("k%03d", k)
+		c.Set([]byte(key), []byte("v"))
+		valid[key] = true
+	}
+	done := make(chan string, 1)
+	seen := map[string]int{}
+	atomic.StoreInt32(&armed, 1)
+	go func() {
+		defer func() {
+			if r := recover(); r != nil {
+				done <- fmt.Sprintf("panic in the reader: %v", r)
+			}
+		}()
+		v := func(i *Item, d uint64) bool { seen[string(i.Key)]++; return true }
+		var e error
+		if in.Op == "Random" {
+			e = c.VisitItemsRandom(v)
+		} else {
+			e = c.VisitItemsAscendBlockEx(false, nil, v)
+		}
+		_ = e // an error return is acceptable (the collection changed under the enumeration); a panic is not
+		done <- ""
+	}()
+	select {
+	case <-parked:
+		// the single mutator
+		switch in.After {
+		case "empty":
+			for k := 0; k < in.N; k++ {
+				c.Delete([]byte(fmt.Sprintf("k%03d", k)))
+			}
+		case "shrink":
+			for k := 0; k < in.N-1; k++ {
+				c.Delete([]byte(fmt.Sprintf("k%03d", k)))
+			}
+		case "grow":
+			for k := in.N; k < 2*in.N+2; k++ {
+				key := fmt.Sprintf("k%03d", k)
+				c.Set([]byte(key), []byte("v"))
+				valid[key] = true
+			}
+		}
+		close(resume)
+	case w := <-done: // never parked (nothing to count)
+		return w
+	case <-time.After(10 * time.Second):
+		return "the reader neither reached the hand-over point nor returned within 10 s"
+	}
+	select {
+	case w := <-done:
+		if w != "" {
+			return w
+		}
+	case <-time.After(10 * time.Second):
+		return "the reader did not return within 10 s after the mutator finished"
+	}
+	for k, n := range seen {
+		if !valid[k] {
+			return "the reader was presented " + k + ", which never was a key of the collection"
+		}
+		if n > 1 && in.After != "grow" {
+			return fmt.Sprintf("the reader was presented %s %d times", k, n)
+		}
+	}
+	return ""
+}
+
+func TestBounded_C05_HandOver(t *testing.T) {
+	const test = "TestBounded_C05_HandOver"
+	var space []c05HandOver
+	for _, op := range []string{"BlockEx", "Random"} {
+		for _, n := range []int{1, 2, 3, 5} {
+			for _, after := range []string{"empty", "shrink", "grow"} {
+				space = append(space, c05HandOver{Op: op, N: n, After: after})
+			}
+		}
+	}
+	if r := os.Getenv("BOUNDED_REPLAY"); r != "" {
+		var v struct {
+			Test  string      `json:"test"`
+			Input c05HandOver `json:"input"`
+		}
+		if json.Unmarshal([]byte(r), &v) != nil || v.Test != test {
+			return
+		}
+		space = []c05HandOver{v.Input}
+	}
+	for _, in := range space {
+		if what := c05HandOverRun(in); what != "" {
+			b, _ := json.Marshal(map[string]interface{}{"test": test, "input": in, "what": what})
+			fmt.Printf("BOUNDED-VIOLATION %s\n", b)
+			t.Errorf("%+v: %s", in, what)
+		}
+	}
+	fmt.Printf("BOUNDED-CASES test=%s cases=%d space=forced schedules: {VisitItemsAscendBlockEx, VisitItemsRandom} x {1,2,3,5} items x the single mutator {empties, shrinks to one item, grows} the collection while the reader is parked between counting the items and looking up the first one\n", test, len(space))
 }
